@@ -551,7 +551,7 @@ int main(int argc, char **argv)
 		else if (!strcmp(c, "readnum")) { /* the numeric literal scanner: readnum <hex-encoded string> */
 			char *hx = nx(); int L = (int)strlen(hx) / 2, k, used; char *s = malloc(L + 1); mpq_t q; mpq_init(q);
 			for (k = 0; k < L; k++) { unsigned v; sscanf(hx + 2 * k, "%2x", &v); s[k] = (char)v; } s[L] = 0;
-			ev_begin(c); J_str("s", s); arm(); used = mpq_EGlpNumReadStrXc(q, s); disarm(); J_int("used", used); J_q("v", q); ev_end(NULL); mpq_clear(q); free(s); }
+			ev_begin(c); J_str("s", s); J_chars("chars", s, L); mpq_set_si(q, 424242, 1); arm(); used = mpq_EGlpNumReadStrXc(q, s); disarm(); J_int("used", used); J_q("v", q); ev_end(NULL); mpq_clear(q); free(s); }
 		else if (!strcmp(c, "shutdown")) { int k, leak = -1; ev_begin(c); arm();
 			for (k = 0; k < MAXH; k++) { if (H[k]) mpq_QSfree_prob(H[k]); H[k] = NULL; if (B[k]) mpq_QSfree_basis(B[k]); B[k] = NULL; }
 			QSexactClear();
